@@ -2,10 +2,10 @@
 
 // prop: C12
 // tier: quick
-// name: Reuse.same-as-fresh Reuse.inputs-untouched
+// name: Reuse.same-as-fresh Reuse.inputs-untouched Reuse.offset-same-as-fresh
 // what: (same-as-fresh) on one engine object, after an arbitrary prefix of Execute / ExecuteOC / ExecutePolyTree64 calls with other clip types and fill rules and with a solution argument that already holds data, the result of Execute is identical to that of a fresh engine given the same paths (added in one call or split over several calls); (inputs-untouched) no call modifies a path slice supplied by the caller
-// bound: 1000 (quick) / 40000 (thorough) pseudo-random inputs (1-3 subject and 0-2 clip polygons of 3-6 vertices on the grid {0,4,..,40}^2, seeded by VERIF_SEED), each with a random prefix of 1-3 earlier executions
-// sampled: Reuse.same-as-fresh Reuse.inputs-untouched
+// bound: (offset-same-as-fresh: one ClipperOffset object holding the subject polygons as one group with a random join type and end type, executed with 1-2 earlier deltas from {-6,-2,-0.3,0.3,2,6,11} and a stale solution argument, then with a final delta: the result equals that of a fresh ClipperOffset given the same paths and the final delta only) 1000 (quick) / 40000 (thorough) pseudo-random inputs (1-3 subject and 0-2 clip polygons of 3-6 vertices on the grid {0,4,..,40}^2, seeded by VERIF_SEED), each with a random prefix of 1-3 earlier executions
+// sampled: Reuse.same-as-fresh Reuse.inputs-untouched Reuse.offset-same-as-fresh
 
 package go_clipper2
 
@@ -96,7 +96,41 @@ func TestVerifBoundedReuse(t *testing.T) {
 			report("inputs-untouched", subj, clip, "a caller-supplied path was modified")
 		}
 	}
-	for _, w := range []string{"same-as-fresh", "inputs-untouched"} {
+	// the offsetting engine: earlier executions with other deltas leave nothing behind
+	deltas := []float64{-6, -2, -0.3, 0.3, 2, 6, 11}
+	jts := []JoinType{Square, Bevel, Round, Miter}
+	ets := []EndType{Polygon, Polygon, Joined, Butt, SquareET, RoundET}
+	for it := 0; it < n; it++ {
+		var subj Paths64
+		for k := 1 + rng.Intn(2); k > 0; k-- {
+			subj = append(subj, randPoly())
+		}
+		subj0 := fmt.Sprint(subj)
+		jt, et := jts[rng.Intn(4)], ets[rng.Intn(6)]
+		final := deltas[rng.Intn(len(deltas))]
+		fresh := NewClipperOffset(2, 0, false, false)
+		fresh.AddPaths(subj, jt, et)
+		var want Paths64
+		fresh.Execute64(final, &want)
+		used := NewClipperOffset(2, 0, false, false)
+		used.AddPaths(subj, jt, et)
+		var got Paths64
+		for k := 1 + rng.Intn(2); k > 0; k-- {
+			got = Paths64{{{1, 2}, {3, 4}, {5, 6}}}
+			used.Execute64(deltas[rng.Intn(len(deltas))], &got)
+		}
+		got = Paths64{{{9, 9}, {8, 8}, {7, 7}}}
+		used.Execute64(final, &got)
+		cases["offset-same-as-fresh"]++
+		if fmt.Sprint(got) != fmt.Sprint(want) {
+			report("offset-same-as-fresh", subj, nil, fmt.Sprintf("join %v end %v delta %v: fresh offsetter %v, reused offsetter %v", jt, et, final, want, got))
+		}
+		cases["inputs-untouched"]++
+		if fmt.Sprint(subj) != subj0 {
+			report("inputs-untouched", subj, nil, "a caller-supplied path was modified by the offsetter")
+		}
+	}
+	for _, w := range []string{"same-as-fresh", "inputs-untouched", "offset-same-as-fresh"} {
 		fmt.Printf("VERIF-BOUNDED Reuse.%s cases=%d failures=%d\n", w, cases[w], fails[w])
 	}
 }
